@@ -70,12 +70,9 @@ def parseInt (cs : List Char) : Option Int :=
 
 /-- python `float(text)` restricted to plain decimals `[sign] digits [. digits]`; the result is the
 exact value `m / 10^d` as the pair `(m, d)`.  Exponents, `inf`, `nan`, `_`: `none`. -/
-def parseDec (cs : List Char) : Option (Int × Nat) :=
-  let neg := match cs with | '-' :: _ => true | _ => false
-  let body := match cs with | '-' :: r => r | '+' :: r => r | r => r
+def parseDecBody (sgn : Int) (body : List Char) : Option (Int × Nat) :=
   let ip := body.takeWhile isDigit
   let rest := body.dropWhile isDigit
-  let sgn : Int := if neg then -1 else 1
   match rest with
   | [] => if ip = [] then none else some (sgn * (digitsVal ip : Int), 0)
   | '.' :: fr =>
@@ -83,6 +80,12 @@ def parseDec (cs : List Char) : Option (Int × Nat) :=
         some (sgn * ((digitsVal ip * 10 ^ fr.length + digitsVal fr : Nat) : Int), fr.length)
       else none
   | _ => none
+
+def parseDec (cs : List Char) : Option (Int × Nat) :=
+  match cs with
+  | '-' :: r => parseDecBody (-1) r
+  | '+' :: r => parseDecBody 1 r
+  | r => parseDecBody 1 r
 
 /-- bring an exact decimal to `p` decimals (`none` if it has more than `p`) -/
 def toScale (p : Nat) (v : Int × Nat) : Option Int :=
@@ -501,20 +504,23 @@ def pdbFold (L : PdbLayout) (exclude : List (List Char)) (ignh : Bool) :
       let st' ← pdbStep L exclude ignh st l
       pdbFold L exclude ignh st' ls
 
+/-- the loop `for num in range(start, n, width): int(line[num:num + width])` (fuel ≥ number of steps) -/
+def conectGo (w : Nat) (line : List Char) (n : Nat) : Nat → Nat → Except Err (List Int)
+  | 0, _ => .ok []
+  | fuel + 1, pos =>
+    if pos < n then
+      match parseInt (strip (slice line pos (pos + w))) with
+      | some i =>
+        match conectGo w line n fuel (pos + w) with
+        | .ok r => .ok (i :: r)
+        | .error e => .error e
+      | none => .error .valueerror
+    else .ok []
+
 /-- serial numbers of one CONECT line: `int(line[n:n+width]) for n in range(start, len(line.rstrip()), width)` -/
 def conectIds (L : PdbLayout) (line : List Char) : Except Err (List Int) :=
-  let n := (stripR line).length
-  let rec go (fuel pos : Nat) : Except Err (List Int) :=
-    match fuel with
-    | 0 => .ok []
-    | fuel + 1 =>
-      if pos < n then do
-        let i ← match parseInt (strip (slice line pos (pos + L.conectWidth))) with
-          | some i => pure i | none => throw Err.valueerror
-        let r ← go fuel (pos + L.conectWidth)
-        pure (i :: r)
-      else .ok []
-  if L.conectWidth = 0 then .error .valueerror else go n L.conectStart
+  if L.conectWidth = 0 then .error .valueerror
+  else conectGo L.conectWidth line (stripR line).length (stripR line).length L.conectStart
 
 /-- `{atomid: idx}` dictionary of a molecule: the LAST atom with a given serial wins -/
 def idxOfId (mol : List PAtom) (id : Int) : Option Nat :=
